@@ -297,7 +297,7 @@ mod vx_proofs {
     }
 %(extra)s
 }
-''' % dict(E=E, inst=inst, L=L, fold=FOLD_EQ, exp=rust_expected(prog, inst), err=err_ty, unw=max(L + 3, 10), extra=extra, custom=('true' if (prog.parse_err_fn and dv is None) else 'false'))
+''' % dict(E=E, inst=inst, L=L, fold=FOLD_EQ, exp=rust_expected(prog, inst), err=err_ty, unw=(max(L + 3, 10) if err_ty == 'PErr' else L + 3), extra=extra, custom=('true' if (prog.parse_err_fn and dv is None) else 'false'))
 
 EQ_IGNORE_HARNESS = '''
     // cross-check of the assumed std contract `eq_ignore_ascii_case(a, b) == (fold(a) == fold(b))` on the real std code
